@@ -851,7 +851,7 @@ func (e *Engine) chanSendHook(f *Frame, x *ssa.Send, st *State) {
 	v.Go = et
 	for _, inv := range c.Invs {
 		g := f.evalClause(inv, map[string]Val{c.Params[0].Name: v}, st, st)
-		f.un.obligeNamed(st, fmt.Sprintf("chan:%s#%s@%s", TypeKey(et), inv.label(), f.un.posOf(x.Pos())), "channel", inv.Text, f.un.posOf(x.Pos()), g)
+		f.un.obligeNamed(st, fmt.Sprintf("chan:%s#%s@%s", TypeKey(et), inv.label(), f.un.siteTag("chan:"+TypeKey(et), x.Pos())), "channel", inv.Text, f.un.posOf(x.Pos()), g)
 	}
 }
 
@@ -876,7 +876,7 @@ func (e *Engine) selectSendHook(f *Frame, x *ssa.Select, i int, idx Term, st *St
 	v.Go = et
 	for _, inv := range c.Invs {
 		g := f.evalClause(inv, map[string]Val{c.Params[0].Name: v}, st, st)
-		f.un.obligeNamed(st, fmt.Sprintf("chan:%s#%s@%s", TypeKey(et), inv.label(), f.un.posOf(x.Pos())), "channel", inv.Text, f.un.posOf(x.Pos()), g)
+		f.un.obligeNamed(st, fmt.Sprintf("chan:%s#%s@%s", TypeKey(et), inv.label(), f.un.siteTag("chan:"+TypeKey(et), x.Pos())), "channel", inv.Text, f.un.posOf(x.Pos()), g)
 	}
 }
 // callbackKey names a function value by where it comes from: "T.field" for a struct field,
